@@ -33,7 +33,8 @@ BATCH = 40
 
 
 def bounds(tier):
-    return {"mutation_kinds": len(MUTATIONS), "shapes": "square (3,3) and (3,), broadcasting pairs of C01"}
+    return {"mutation_kinds": len(MUTATIONS), "shapes": "square (3,3) and (3,), unit-axis and broadcasting pairs" +
+            ("" if tier == "quick" else "; non-square (2,3), (2,3,2), (2,3,4) operands, all ordered pairs of 6 dtypes")}
 
 
 # --------------------------------------------------------------------------
@@ -102,6 +103,40 @@ def api_terms(tier):  # noqa: C901
     for shape, tgt in [((3,), S), ((1, 3), S), ((), S), ((3, 1), S), ((3, 1), (2, 3, 3)), ((3,), (3,)), ((1, 1), S)]:
         for dt in ("float64", "int32"):
             yield "broadcast_to", ["broadcast_to", ph("a", shape, dt), list(tgt)]
+    if tier != "quick":
+        # thorough: non-square and 3-axis shapes (an axis permutation or a mixed-up broadcast axis is invisible on
+        # square operands), every ordered dtype pair
+        D6 = ("bool", "int32", "int64", "float32", "float64", "complex128")
+        pairs2 = [((2, 3), (2, 3)), ((2, 3), (3,)), ((2, 1), (1, 3)), ((2, 3, 2), (3, 2)), ((2, 3, 2), (2,)),
+                  ((2, 3, 2), (3, 1)), ((3, 2), (2, 3, 2)), ((2, 1, 2), (3, 1)), ((), (2, 3))]
+        for op in space.ALL_BINOPS:
+            for (s1, s2) in pairs2:
+                for d1 in D6:
+                    for d2 in D6:
+                        yield "binop", space.mkbin(op, ph("a", s1, d1), ph("b", s2, d2))
+            for sc in space.PY_SCALARS + space.NP_SCALARS:
+                for dt in D6:
+                    yield "binop-scalar", space.mkbin(op, ph("a", (2, 3), dt), sc)
+                    yield "binop-scalar", space.mkbin(op, sc, ph("a", (2, 3, 2), dt))
+        for dc in ("bool", "int32", "float64"):
+            for (sc, s1, s2) in [((2, 3), (2, 3), (3,)), ((2, 1), (1, 3), (2, 3)), ((3,), (2, 3, 3), (3, 1)), ((2, 3, 2), (2,), ())]:
+                for d1, d2 in (("float64", "float64"), ("int32", "float64"), ("float32", "int64"), ("bool", "int32")):
+                    yield "where", ["where", ph("c", sc, dc), ph("a", s1, d1), ph("b", s2, d2)]
+        for fn in T.MATHFNS:
+            for dt in ("float64", "float32", "complex128"):
+                for shape in ((2, 3), (2, 3, 2)):
+                    yield "math", ["fn", fn, ph("a", shape, dt)]
+        for op in T.REDOPS:
+            for shape in [(2, 3), (2, 3, 4), (2, 1, 3)]:
+                for ax in space.axis_subsets(len(shape)):
+                    for dt in D6:
+                        yield "reduce", ["red", op, ph("a", shape, dt), ax]
+        for shape, tgt in [((3,), (2, 3)), ((2, 1), (2, 3)), ((1, 3), (2, 3)), ((2, 1, 2), (2, 3, 2)), ((3, 1), (2, 3, 4)), ((), (2, 3, 2))]:
+            for dt in D6:
+                yield "broadcast_to", ["broadcast_to", ph("a", shape, dt), list(tgt)]
+        for shape in [(2, 3), (2, 3, 2)]:
+            for v, dt in [(2.5, None), (3, "float32"), (True, None), (7, "int32")]:
+                yield "full", ["full", list(shape), v, dt]
 
 
 # the operation kinds the property names: fill, binary operation, math call, where, reduction,
